@@ -144,7 +144,7 @@ Proof.
   - destruct o; reflexivity.
 Qed.
 
-Lemma export_top n : exportD sat n DTop = inr [ENonMergeable].
+Lemma export_top n : exportD sat n DTop = inr conflict_errs.
 Proof. destruct n; reflexivity. Qed.
 
 Lemma export_atom n a : exportD sat n (DAtom a) = inl (JAtom a).
